@@ -10,6 +10,10 @@ fi
 if ! go build -tags verif -o "$w/bin-c06" ./harness/c06 2> "$w/build2.log"; then
   cat "$w/build2.log" >&2; echo "TOOL-ERROR: build failed" >&2; exit 2
 fi
+# borrowed phase: C20's directed histories on real servers
+if ! INSTR_REUSE=1 lib/instr_build.sh harness/c20 "$w/bin-c20" 2> "$w/build3.log"; then
+  cat "$w/build3.log" >&2; echo "TOOL-ERROR: instrumented build failed" >&2; exit 2
+fi
 [ "${1:-}" = "--warm" ] && exit 0
 { flock -u 9 && exec 9>&-; } 2>/dev/null  # the build is done: release the shared lock on /repo's working tree (.work/repo.lock)
-VERIF_BIN_C06="$w/bin-c06" VERIF_TUNABLE_snapshotOffset=0 exec "$w/bin" "$@"
+VERIF_BIN_C06="$w/bin-c06" VERIF_BIN_C20="$w/bin-c20" VERIF_TUNABLE_snapshotOffset=0 exec "$w/bin" "$@"
